@@ -92,6 +92,8 @@ def run(ctx):
     runs += extra         # seeded random data sets beyond the enumerated scope (larger, 1-3 dimensions, scaled)
     large = ce.large_runs(rng, 2 if ctx.tier == "quick" else 8)
     traces = core.pmap(cc.record, runs, chunk=100)
+    ctx.notes["runs_refused_for_their_element_type"] = sum(1 for tr in traces if tr.get("rejected_input"))
+    traces = [tr for tr in traces if not tr.get("rejected_input")]
     for tr in traces:
         res_ev = [e for e in tr["events"] if e["ev"] == "result"]
         ncent = len(res_ev[0]["ctrIdx"]) if res_ev else 0
